@@ -319,6 +319,42 @@ def ob_config_independence(has_h1: bool, h1_s1: bool, h1_s2: bool, has_h2: bool,
                          has_h1, h1_s1, h1_s2, has_h2, h2_s1, h2_s2, has_hw, m, 1, m)
 
 
+def _add_late_step(cls):
+    """what `@step(workflow=Flow)` on a free function does after instances of Flow already exist"""
+    @step(workflow=cls)
+    async def late(ev: EvB) -> StopEvent:
+        return StopEvent()
+
+    return cls
+
+
+@obligation(quick=120, thorough=300, partitions_quick=["dv and used_before", "dv and not used_before", "not dv"],
+            what="a step registered on the class AFTER an instance exists (and, symbolically, after that instance was already run once): the "
+                 "instance's next run gets catch_error tables that cover the new step exactly like a fresh, validated instance of the class "
+                 "does — for disable_validation False AND True",
+            bounds={"layout": "2 steps + late step, optional scoped handler on s1, optional wildcard", "max_recoveries": "1..2"})
+def ob_late_step(has_h1: bool, has_hw: bool, m: int, dv: bool, used_before: bool) -> bool:
+    """
+    pre: 1 <= m <= 2
+    post: _
+    """
+    has_h1, has_hw, dv, used_before = concb(has_h1), concb(has_hw), concb(dv), concb(used_before)
+    m = conc(m, 1, 2)
+    cls = native(_build_wf_class, has_h1, True, False, False, False, False, has_hw, m, 1, m)
+    wf = cls(disable_validation=dv, runtime=CaptureRuntime(), timeout=None)
+    if used_before:
+        init_state_via_run(wf)
+    native(_add_late_step, cls)
+    got = init_state_via_run(wf)
+    ref = init_state_via_run(cls(disable_validation=False, runtime=CaptureRuntime(), timeout=None))
+    a = (sorted(got.config.catch_error_handlers), dict(got.config.handler_for_step))
+    b = (sorted(ref.config.catch_error_handlers), dict(ref.config.handler_for_step))
+    if a != b:
+        return False
+    # and the new step is really covered when a wildcard handler exists
+    return (not has_hw) or got.config.handler_for_step.get("late") == "hw"
+
+
 # --------------------------------------------------------------------------------------------------------------- Ob4
 
 
